@@ -74,11 +74,14 @@ def gen_case(rnd, idx, forced_ctx=None, forced_root=None, n=None):
     err_only = None
     if rnd.random() < 0.4:
         err_only = "E%d_err" % idx if rnd.random() < 0.5 else "ErrorKind%d" % idx
+    # a third of the projects write their type references through paths (std::vec::Vec<crate::T>): same types, same reachability
+    spelling = rg.SPELLINGS[idx % 3] if idx % 3 == rnd.randrange(3) else None
+    q = lambda text: rg.qualify(text, spelling, names)
     body = {}
     for i in range(n):
         fields = [("id", "i32")]
         for k, (j, lab, ty) in enumerate(edges[i]):
-            fields.append(("f%d" % k, rg.rust(rg.strip_refs(ty))))
+            fields.append(("f%d" % k, q(rg.rust(rg.strip_refs(ty)))))
         derives = None if i in nonserde else rnd.choice(["Serialize, Deserialize", "Serialize", "Deserialize", "serde::Serialize, serde::Deserialize"])
         style = rnd.choice(rg.DERIVE_STYLES)
         if kinds[i] == "enum":
@@ -88,7 +91,7 @@ def gen_case(rnd, idx, forced_ctx=None, forced_root=None, n=None):
         body.setdefault(file_of[i], []).append(src)
     cmds = []
     for r, (target, rk, lab, ty) in enumerate(roots):
-        rs = rg.rust(ty)
+        rs = q(rg.rust(ty))
         nm = "root_%d_%d" % (idx, r)
         if rk == "param":
             cmds.append(rg.command_src(nm, [("p", rs)], "i32"))
@@ -153,7 +156,7 @@ def gen_case(rnd, idx, forced_ctx=None, forced_root=None, n=None):
     info = {"parents": parents, "rootvia": rootvia, "names": names, "kinds": kinds, "nonserde": {names[i] for i in nonserde}, "via": {names[i]: sorted(v) for i, v in via.items()},
             "err_only": err_only, "n": n, "edges": sum(len(v) for v in edges.values()), "files": len(files),
             "has_cycle": any(j <= i for i in edges for (j, _, _) in edges[i]),
-            "all": set(names) | ({err_only} if err_only else set())}
+            "all": set(names) | ({err_only} if err_only else set()), "spelling": spelling}
     return files, expected, info
 
 
@@ -220,7 +223,7 @@ def run_case(a):
             if c > 1:
                 viol.append(("C07 declared-twice", "%s is declared %d times" % (nm, c)))
         r = {"viol": viol, "n": info["n"], "edges": info["edges"], "files": info["files"], "cycle": info["has_cycle"],
-             "expected": len(expected), "decoys": len(info["all"]) - len(expected)}
+             "expected": len(expected), "decoys": len(info["all"]) - len(expected), "spelling": info["spelling"]}
         if viol:
             r["witness"] = proj.witness_of(files, mode, extra={"expected": sorted(expected)})
         return r
@@ -261,6 +264,7 @@ def run(tier):
         v.count("types_expected", r["expected"])
         v.count("decoy_types", r["decoys"])
         v.count("graphs_with_cycles", 1 if r["cycle"] else 0)
+        v.count("graphs_with_path-qualified_type_references", 1 if r.get("spelling") else 0)
         v.count("multi_file_graphs", 1 if r["files"] > 1 else 0)
         for (sig, what) in r["viol"]:
             v.violation(sig, "%s mode: %s" % (job[3], what), r.get("witness"))
